@@ -355,6 +355,75 @@ func runC08(c *Ctx) {
 	}
 	c.AtLeast("R5", "direct Read sites", n, 3)
 
+	// fill-until-full reads: input shorter than the buffer is ordinary (most pointers and many files are shorter
+	// than the 1024-byte sniff buffer); io.ReadFull/ReadAtLeast report it as io.ErrUnexpectedEOF, which must be
+	// told apart from a real error wherever the error of such a read is looked at
+	nFull := 0
+	for _, fn := range p.RepoFuncs(productPkg) {
+		for _, ci := range CallsIn(fn, "io.ReadFull", "io.ReadAtLeast") {
+			call, ok := ci.(*ssa.Call)
+			if !ok {
+				continue
+			}
+			nFull++
+			tolerant, looked := false, false
+			for _, r := range Referrers(call) {
+				ex, ok := r.(*ssa.Extract)
+				if !ok || ex.Index != 1 {
+					continue
+				}
+				var scan func(v ssa.Value, d int)
+				scan = func(v ssa.Value, d int) {
+					if d > 3 {
+						return
+					}
+					for _, rr := range Referrers(v) {
+						switch x := rr.(type) {
+						case *ssa.BinOp:
+							if x.Op == token.EQL || x.Op == token.NEQ {
+								looked = true
+								for _, o := range []ssa.Value{x.X, x.Y} {
+									if ld, ok := o.(*ssa.UnOp); ok {
+										if g, ok := ld.X.(*ssa.Global); ok && g.Name() == "ErrUnexpectedEOF" {
+											tolerant = true
+										}
+									}
+								}
+							}
+						case *ssa.Phi:
+							scan(x, d+1)
+						case *ssa.Store:
+							if al, ok := x.Addr.(*ssa.Alloc); ok {
+								for _, ld := range Referrers(al) {
+									if u, ok := ld.(*ssa.UnOp); ok {
+										scan(u, d+1)
+									}
+								}
+							}
+						case *ssa.Return, *ssa.MakeInterface:
+							looked = true
+						case ssa.CallInstruction:
+							looked = true
+							if cn := CalleeName(x.Common()); cn == "errors.Is" || cn == "github.com/pkg/errors.Is" {
+								for _, a := range x.Common().Args {
+									if ld, ok := a.(*ssa.UnOp); ok {
+										if g, ok := ld.X.(*ssa.Global); ok && g.Name() == "ErrUnexpectedEOF" {
+											tolerant = true
+										}
+									}
+								}
+							}
+						}
+					}
+				}
+				scan(ex, 0)
+			}
+			c.Check(!looked || tolerant, "R5", "fill-read-tolerates-short-input:"+FnName(fn), p.InstrPos(ci), "the error of a fill-until-full read is compared with io.ErrUnexpectedEOF (short input is not a failure)",
+				"the error of a fill-until-full read is acted upon without telling io.ErrUnexpectedEOF apart: input shorter than the buffer (any small file or pointer) is treated as a hard error and its content is dropped")
+		}
+	}
+	c.AtLeast("R5", "fill-until-full reads", nFull, 1)
+
 	emptyShortcutRule(c, "R7")
 
 	// ---- R6: smudge pass-through ------------------------------------------------------------------
